@@ -204,7 +204,7 @@ NoMarksIn(s) == \A i \in 1..Len(s) : MarksIn(s[i]) = {}
 \* every operand reports the same after the call(s) as before (ia / ia2: digests of the operands' full projections)
 InputsChanged(e) == IF Has(e, "ia") /\ e.ia # e.ia2 THEN {"C20.Immutable"} ELSE {}
 \* --- C02 / C06 / C20 on a single call with wholly known operands
-CallPremise(e) == AllRanked(e.a)
+CallPremise(e) == AllRanked(e.a) \/ Has(e, "mq")     \* (mq: relational laws that need no order in the model)
 CallFailed(e) ==
   LET ref == IF e.api \in AllOps /\ AllWhollyKnown(e.a) /\ NoMarksIn(e.a) THEN Ref(e.api, e.a, e.x) ELSE UNDEF IN
   (IF Has(ref, "undef") THEN {}
@@ -220,6 +220,14 @@ CallFailed(e) ==
   \* comparisons and equality do not depend on the precision either operand is held at: every mix of representations gives the reference answer
   \cup (IF Has(ref, "undef") \/ ~ref.ok \/ ~Has(e, "rm") \/ e.api \notin NumCmp \cup EqOps THEN {}
         ELSE IF \E i \in 1..Len(e.rm) : ~e.rm[i].ok \/ ~Match(e.rm[i].val, ref.val) THEN {"C02.ResultIsRefAllReps"} ELSE {})
+  \* Modulo is the remainder of truncated division, whatever precisions the operands are held at: zero or of the
+  \* dividend's sign, and the dividend itself when that is already smaller than the divisor (relations observed with math/big)
+  \cup (IF ~Has(e, "mq") THEN {}
+        ELSE IF \E i \in 1..Len(e.mq) : e.mq[i].ok /\ Has(e.mq[i], "sr")
+                   \* (rltb, "remainder smaller than the divisor", is logged but not judged: with operands of different precision the
+                   \*  library's remainder can exceed the divisor by less than the coarser operand's precision, which C02 allows)
+                   /\ (e.mq[i].sr \notin {0, e.mq[i].sa} \/ (e.mq[i].ca = -1 /\ ~e.mq[i].rsa))
+             THEN {"C02.ModuloIsRemainder"} ELSE {})
   \* (x.dup: a constructor given two spellings of one key - which entry survives follows Go map order; not judged)
   \cup (IF Len(e.rs) = 1 \/ Has(e.x, "dup") THEN {} ELSE {"C20.Pure"})
   \cup InputsChanged(e)
@@ -308,6 +316,8 @@ ArgTuples(op) ==
                         \cup (IF op = "Divide" THEN {<<NumK([lm |-> n]), K(TNum, u)>> : n \in LmScaled, u \in LmFactors \ {Qn(0)}} ELSE {})
                         \cup (IF op \in {"Divide", "Subtract"} THEN {<<NumK([lm |-> n]), NumK([lm |-> n])>> : n \in LmScaled} ELSE {})
                         \cup (IF op \in NumCmp THEN LmPairs ELSE {})
+                        \* one decimal text held at different precisions (equal for cty, different rationals), and neighbours
+                        \cup (IF op = "Modulo" THEN {<<K(TNum, [dec |-> x]), K(TNum, [dec |-> y])>> : x \in {"1/10", "3/10", "1/3", "7/5"}, y \in {"1/10", "3/10", "1/3", "7/5"}} ELSE {})
     [] op \in NumUn -> {<<x>> : x \in NumK1} \cup {<<NumK([lm |-> n])>> : n \in LmScaled}
     [] op \in BoolBin -> {<<x, y>> : x \in BoolK1, y \in BoolK1}
     [] op \in BoolUn -> {<<x>> : x \in BoolK1}
